@@ -25,8 +25,12 @@ CONSTANT MaxN        \* largest cell count per direction
 
 Types == {"cartesian", "chunk", "annulus", "sphere"}
 (* full: the sphere reaches down to the centre (z_min = 0) instead of being a shell *)
-Configs == {g \in [type : Types, dim : {2, 3}, nx : 1..MaxN, ny : 1..MaxN, nz : 1..MaxN, full : BOOLEAN] :
+(* limit: the command line says --resolution-limit <limit> (0: the option is absent): every requested cell count is capped by it;
+   ascii: the .grid file asks for the ASCII vtu format (six significant digits) instead of raw binary *)
+Configs == {g \in [type : Types, dim : {2, 3}, nx : 1..MaxN, ny : 1..MaxN, nz : 1..MaxN, full : BOOLEAN, limit : 0..1, ascii : BOOLEAN] :
               /\ (g.full => g.type = "sphere")
+              /\ (g.limit > 0 => (~g.full /\ ~g.ascii /\ g.type # "sphere" /\ (g.nx > g.limit \/ g.ny > g.limit \/ g.nz > g.limit)))
+              /\ (g.ascii => g.type = "cartesian")
               /\ (g.dim = 2 => g.ny = 1)
               /\ (g.type = "annulus" => g.dim = 2 /\ g.nx = 1)
               /\ (g.type = "sphere" => g.dim = 3 /\ g.nx = g.ny /\ g.nx <= 2 /\ g.nz <= 2)
@@ -35,7 +39,7 @@ Configs == {g \in [type : Types, dim : {2, 3}, nx : 1..MaxN, ny : 1..MaxN, nz : 
 S(n) == ToString(n)
 (* the .grid file: integral bounds so that lattice indices can be recovered exactly *)
 GridFile(g) ==
-  <<"grid_type = " \o g.type, "dim = " \o S(g.dim), "compositions = 3", "vtu_output_format = RawBinary">> \o
+  <<"grid_type = " \o g.type, "dim = " \o S(g.dim), "compositions = 3", "vtu_output_format = " \o (IF g.ascii THEN "ASCII" ELSE "RawBinary")>> \o
   (CASE g.type = "cartesian" -> <<"x_min = 0", "x_max = 600e3", "y_min = 100e3", "y_max = 400e3", "z_min = 400e3", "z_max = 1000e3">>
      [] g.type = "chunk"     -> <<"x_min = 0", "x_max = 12", "y_min = 0", "y_max = 6", "z_min = 5771000", "z_max = 6371000">>
      [] g.type = "annulus"   -> <<"x_min = 0", "x_max = 1", "y_min = 0", "y_max = 1", "z_min = 4371000", "z_max = 6371000">>
@@ -52,7 +56,10 @@ Sph(g) == g.type # "cartesian"
 WorldDoc(g) == World(IF Sph(g) THEN Spherical("begin segment") ELSE Cartesian, KSFeatures(Sph(g)))
                @@ ("cross section" :> <<XY(Sph(g), 0, 250), XY(Sph(g), 1000, 250)>>)
 
-Job(g) == [config |-> g, grid |-> GridFile(g), bounds |-> Bounds(g), wb |-> WorldDoc(g)]
+(* Prop: the mesh has min(requested, limit) cells per direction *)
+Cap(g, n) == IF g.limit = 0 \/ n <= g.limit THEN n ELSE g.limit
+Effective(g) == [g EXCEPT !.nx = Cap(g, g.nx), !.ny = Cap(g, g.ny), !.nz = Cap(g, g.nz)]
+Job(g) == [config |-> g, effective |-> Effective(g), grid |-> GridFile(g), bounds |-> Bounds(g), wb |-> WorldDoc(g)]
 
 (***************************************************************************)
 (* Prop predicates over a recorded mesh                                    *)
